@@ -36,6 +36,7 @@ MODULES = {
     "C19": "props_c19",
     "BLINES": "props_blines",
     "SETINDENT": "props_setindent",  # model of set_token_indent / read_indent_configuration (development aid for C05 / C08)
+    "BFULL2": "props_bfull2",  # wp2_bfull2: whole-rule (B-full) correspondence of the indent / vertical-spacing families
     "BMULTI": "props_bmulti",
     "PROG": "props_prog",  # >>> WP1 layer P: translated classifier productions vs the real ones (development aid) <<<  # layer-B multi-line structure family correspondence (development aid)
 }
